@@ -127,6 +127,16 @@ func (st *State) assume(t string) {
 		return
 	}
 	st.known[t] = true
+	var flat func(t string)
+	flat = func(t string) {
+		if strings.HasPrefix(t, "(and ") {
+			for _, c := range splitTop(t[5 : len(t)-1]) {
+				st.known[c] = true
+				flat(c)
+			}
+		}
+	}
+	flat(t)
 	st.asserts = st.asserts.push(t)
 }
 
@@ -252,6 +262,9 @@ func (st *State) heapGet(h *Heap, name string, s Sort) string {
 		return t
 	}
 	init := fmt.Sprintf("%s_e%d", name, h.epoch)
+	if strings.HasPrefix(name, "imm_") {
+		init = name + "_e0" // immutable fields are never havocked: one initial array for all epochs
+	}
 	st.declareOnce(init, s)
 	h.m[name] = init
 	h.sorts[name] = s
@@ -300,7 +313,7 @@ func (st *State) loadH(h *Heap, addr string, T types.Type) Value {
 	case *types.Struct:
 		var fs []string
 		for i := 0; i < u.NumFields(); i++ {
-			fs = append(fs, st.loadH(h, sub(addr, i), u.Field(i).Type()).Term)
+			fs = append(fs, st.loadH(h, st.eng.fsub(addr, T, i), u.Field(i).Type()).Term)
 		}
 		return Value{T: T, S: s, Term: te.StructMk(s, fs)}
 	case *types.Array:
@@ -309,6 +322,9 @@ func (st *State) loadH(h *Heap, addr string, T types.Type) Value {
 	}
 	var t string
 	switch {
+	case isImmAddr(addr):
+		name, _ := immArray(addr, s)
+		t = app("select", st.heapGet(h, name, ArrSort(SRef, s)), addr)
 	case strings.HasPrefix(addr, "(elem "):
 		a := splitTop(addr[6 : len(addr)-1])
 		t = app("select", app("select", st.elemsArr(h, s), a[0]), a[1])
@@ -383,7 +399,7 @@ func (st *State) storeMem(addr string, T types.Type, v Value) {
 	case *types.Struct:
 		for i := 0; i < u.NumFields(); i++ {
 			ft := u.Field(i).Type()
-			st.storeMem(sub(addr, i), ft, Value{T: ft, S: te.SortOf(ft), Term: te.StructGet(s, i, v.Term)})
+			st.storeMem(st.eng.fsub(addr, T, i), ft, Value{T: ft, S: te.SortOf(ft), Term: te.StructGet(s, i, v.Term)})
 		}
 		return
 	case *types.Array:
@@ -407,6 +423,9 @@ func (st *State) storeMem(addr string, T types.Type, v Value) {
 		return app("store", arr, p, app("store", app("select", arr, p), i, term))
 	}
 	switch {
+	case isImmAddr(addr):
+		name, _ := immArray(addr, s)
+		st.heapSet(name, ArrSort(SRef, s), app("store", st.heapGet(st.heap, name, ArrSort(SRef, s)), addr, term))
 	case strings.HasPrefix(addr, "(elem "):
 		st.heapSet(elemsName(s), ArrSort(SRef, ArrSort(BV(64), s)), storeElem())
 	case strings.HasPrefix(addr, "(sub ") || strings.HasPrefix(addr, "(mkref "):
@@ -465,7 +484,14 @@ func (st *State) freshValue(prefix string, T types.Type) Value {
 // havocAll forgets everything about the heap.
 func (st *State) havocAll(why string) {
 	st.res.note("heap havocked: " + why)
+	old := st.heap
 	st.heap = &Heap{m: map[string]string{}, sorts: map[string]Sort{}, epoch: st.heap.epoch + 1 + freshCtr.n}
+	for k, v := range old.m {
+		if strings.HasPrefix(k, "imm_") {
+			st.heap.m[k] = v
+			st.heap.sorts[k] = old.sorts[k]
+		}
+	}
 	nt := st.fresh("top", SInt)
 	st.assume(app(">=", nt, st.allocTop))
 	st.allocTop = nt
